@@ -8,8 +8,10 @@ Layout
   §4  `From<i64,u64,i128,u128>`          (generic model `fromBig`, `fromBigPf`)
   §5  `trunc` on non-finite / integer-valued inputs, the hypothesis `TruncSpec`
   §6  `TryFrom<TwoFloat>` for the small integer types (generic model `tryFromSmall`)
+  §7  `TryFrom<TwoFloat>` for the wide integer types (generic model `tryFromBig`, `tryFromBigPf`)
 -/
 import TFV.Lemmas.Cmp
+import TFV.Lemmas.NoOverlap
 import Mathlib.Tactic.Ring
 import Mathlib.Tactic.Linarith
 import Mathlib.Tactic.NormNum
@@ -812,6 +814,7 @@ abbrev U : Int := ((F64.unit : Nat) : Int)
 value to an integer (a multiple of `U = 2^1074`). -/
 structure TruncSpec : Prop where
   valid : ∀ x : TwoFloat, x.Valid → x.WF → (TwoFloat.trunc x).Valid
+  wf : ∀ x : TwoFloat, x.Valid → x.WF → (TwoFloat.trunc x).WF
   value : ∀ x : TwoFloat, x.Valid → x.WF → (TwoFloat.trunc x).V = Int.tdiv x.V U * U
 
 theorem add_inf_left_not_finite (s : Bool) (y : F64) : (F64.add (inf s) y).is_finite = false := by
@@ -876,5 +879,426 @@ theorem trunc_int_pzero (s : Bool) (m : Nat) :
     TwoFloat.trunc ⟨fin s (m * F64.unit), fin false 0⟩ = ⟨fin s (m * F64.unit), fin false 0⟩ := by
   unfold TwoFloat.trunc TwoFloat.floor TwoFloat.ceil
   simp only [modf_pzero_frac, if_true, floor_int, ceil_int, ite_self]
+
+end Conv
+
+/-! ## §6 `TryFrom<TwoFloat> for i8 | i16 | i32 | u8 | u16 | u32` -/
+
+namespace Conv
+open F64 TwoFloat
+
+/-- the range check and final cast of the small `TryFrom` impls, applied to the truncated value -/
+def rangeCheck {s : Bool} {b : Nat} (truncated : TwoFloat) : RResult (IntN s b) :=
+  if !((ROrd.isLe (base.impl_PartialOrd_TwoFloat_for_f64.partial_cmp (RCast.cast (IntN.MIN : IntN s b) : F64) truncated)) && (ROrd.isLe (base.impl_PartialOrd_f64_for_TwoFloat.partial_cmp truncated (RCast.cast (IntN.MAX : IntN s b) : F64)))) then
+    Except.error TwoFloatError.ConversionError
+  else
+    Except.ok (RCast.cast (TwoFloat.hi_m truncated) : IntN s b)
+
+/-- the common body of the small `TryFrom` impls (macro `float_convert!` of convert.rs) -/
+def tryFromSmall {s : Bool} {b : Nat} (value : TwoFloat) : RResult (IntN s b) :=
+  rangeCheck (TwoFloat.trunc value)
+
+theorem try_from_i8_eq (x : TwoFloat) : convert.impl_TryFrom_TwoFloat_for_i8.try_from x = tryFromSmall x := rfl
+theorem try_from_i16_eq (x : TwoFloat) : convert.impl_TryFrom_TwoFloat_for_i16.try_from x = tryFromSmall x := rfl
+theorem try_from_i32_eq (x : TwoFloat) : convert.impl_TryFrom_TwoFloat_for_i32.try_from x = tryFromSmall x := rfl
+theorem try_from_u8_eq (x : TwoFloat) : convert.impl_TryFrom_TwoFloat_for_u8.try_from x = tryFromSmall x := rfl
+theorem try_from_u16_eq (x : TwoFloat) : convert.impl_TryFrom_TwoFloat_for_u16.try_from x = tryFromSmall x := rfl
+theorem try_from_u32_eq (x : TwoFloat) : convert.impl_TryFrom_TwoFloat_for_u32.try_from x = tryFromSmall x := rfl
+theorem try_from_ri8_eq (x : TwoFloat) : convert.impl_TryFrom_rTwoFloat_for_i8.try_from x = tryFromSmall x := rfl
+theorem try_from_ri16_eq (x : TwoFloat) : convert.impl_TryFrom_rTwoFloat_for_i16.try_from x = tryFromSmall x := rfl
+theorem try_from_ri32_eq (x : TwoFloat) : convert.impl_TryFrom_rTwoFloat_for_i32.try_from x = tryFromSmall x := rfl
+theorem try_from_ru8_eq (x : TwoFloat) : convert.impl_TryFrom_rTwoFloat_for_u8.try_from x = tryFromSmall x := rfl
+theorem try_from_ru16_eq (x : TwoFloat) : convert.impl_TryFrom_rTwoFloat_for_u16.try_from x = tryFromSmall x := rfl
+theorem try_from_ru32_eq (x : TwoFloat) : convert.impl_TryFrom_rTwoFloat_for_u32.try_from x = tryFromSmall x := rfl
+
+/-- `f64.partial_cmp(&TwoFloat)` for a finite well-formed double and a valid pair is exact -/
+theorem partial_cmp_ft_exact {t : TwoFloat} (ht : t.Valid) {c : F64} (hc : c.WF)
+    (hcf : c.is_finite = true) :
+    base.impl_PartialOrd_TwoFloat_for_f64.partial_cmp c t = some (ROrdering.ofInts c.toInt t.V) := by
+  rw [partial_cmp_ft_nf]
+  have := lex_words (a := ⟨c, F64.fin false 0⟩) (b := t) hcf rfl ht.1 ht.2.1
+    (by simpa [V] using Valid.V_gt_of_hi_gt_f64 roundFacts ht hc)
+    (by simpa [V] using Valid.V_lt_of_hi_lt_f64 roundFacts ht hc)
+  simpa [V] using this
+
+theorem rangeCheck_unfold {s : Bool} {b : Nat} (t : TwoFloat) :
+    (rangeCheck t : RResult (IntN s b)) =
+      if (ROrd.isLe (base.impl_PartialOrd_TwoFloat_for_f64.partial_cmp (F64.ofInt (IntN.minV s b)) t) &&
+          ROrd.isLe (base.impl_PartialOrd_f64_for_TwoFloat.partial_cmp t (F64.ofInt (IntN.maxV s b)))) = true
+      then Except.ok ⟨F64.toIntSat s b t.hi⟩ else Except.error TwoFloatError.ConversionError := by
+  show (if (!(ROrd.isLe (base.impl_PartialOrd_TwoFloat_for_f64.partial_cmp (F64.ofInt (IntN.minV s b)) t) &&
+          ROrd.isLe (base.impl_PartialOrd_f64_for_TwoFloat.partial_cmp t (F64.ofInt (IntN.maxV s b))))) = true
+      then (Except.error TwoFloatError.ConversionError : RResult (IntN s b))
+      else Except.ok ⟨F64.toIntSat s b t.hi⟩) = _
+  cases (ROrd.isLe (base.impl_PartialOrd_TwoFloat_for_f64.partial_cmp (F64.ofInt (IntN.minV s b)) t) &&
+          ROrd.isLe (base.impl_PartialOrd_f64_for_TwoFloat.partial_cmp t (F64.ofInt (IntN.maxV s b)))) <;> rfl
+
+/-- a non-finite high word always fails the range check -/
+theorem rangeCheck_not_finite {s : Bool} {b : Nat} (hK' : IntN.K s b ≤ 128) (t : TwoFloat)
+    (h : t.hi.is_finite = false) :
+    (rangeCheck t : RResult (IntN s b)) = Except.error TwoFloatError.ConversionError := by
+  have hP := Nat.two_pow_pos (IntN.K s b)
+  have hP128 : 2 ^ IntN.K s b ≤ 2 ^ 128 := Nat.pow_le_pow_right (by decide) hK'
+  have hmin : (IntN.minV s b).natAbs ≤ 2 ^ 128 := by
+    rw [IntN.minV_eq]
+    cases s
+    · simp
+    · simp; omega
+  have hmax : (IntN.maxV s b).natAbs ≤ 2 ^ 128 := by rw [maxV_natAbs]; omega
+  obtain ⟨s1, n1, e1⟩ := is_finite_iff.mp (ofInt_finite _ hmin)
+  obtain ⟨s2, n2, e2⟩ := is_finite_iff.mp (ofInt_finite _ hmax)
+  rw [rangeCheck_unfold, partial_cmp_ft_nf, partial_cmp_tf_nf, e1, e2]
+  rcases t with ⟨hi, lo⟩
+  cases hi with
+  | fin sg n => exact absurd h (by simp [is_finite])
+  | nan => rfl
+  | inf sg =>
+    cases sg
+    · have : F64.partial_cmp (inf false) (fin s2 n2) = some .Greater := rfl
+      simp only [this, lex]
+      simp [ROrd.isLe]
+    · have : F64.partial_cmp (fin s1 n1) (inf true) = some .Greater := rfl
+      simp only [this, lex]
+      simp [ROrd.isLe]
+
+/-- the range check on a valid pair whose value is the integer `q`: succeeds with `q` exactly when `q`
+lies in the range of the type -/
+theorem rangeCheck_valid {s : Bool} {b : Nat} (hK : IntN.K s b ≤ 52) (t : TwoFloat) (ht : t.Valid)
+    (q : Int) (hV : t.V = q * U) :
+    (rangeCheck t : RResult (IntN s b)) =
+      if IntN.fits s b q = true then Except.ok ⟨q⟩ else Except.error TwoFloatError.ConversionError := by
+  have hP := Nat.two_pow_pos (IntN.K s b)
+  have hP52 : 2 ^ IntN.K s b ≤ 2 ^ 52 := Nat.pow_le_pow_right (by decide) hK
+  have hUpos : (0 : Int) < U := unit_posI
+  have hmin : (IntN.minV s b).natAbs < 2 ^ 53 := by
+    rw [IntN.minV_eq]
+    cases s
+    · simp
+    · simp; omega
+  have hmax : (IntN.maxV s b).natAbs < 2 ^ 53 := by rw [maxV_natAbs]; omega
+  obtain ⟨-, hminT, hminW⟩ := ofInt_exact_of_lt _ hmin
+  obtain ⟨-, hmaxT, hmaxW⟩ := ofInt_exact_of_lt _ hmax
+  have hminF := ofInt_finite (IntN.minV s b) (by omega)
+  have hmaxF := ofInt_finite (IntN.maxV s b) (by omega)
+  rw [rangeCheck_unfold, partial_cmp_ft_exact ht hminW hminF,
+    partial_cmp_tf_exact_of roundFacts ht hmaxW hmaxF, hminT, hmaxT, hV]
+  have hiff : (ROrd.isLe (some (ROrdering.ofInts (IntN.minV s b * U) (q * U))) &&
+      ROrd.isLe (some (ROrdering.ofInts (q * U) (IntN.maxV s b * U)))) = IntN.fits s b q := by
+    rw [Bool.eq_iff_iff, Bool.and_eq_true, ROrd.isLe_ofInts, ROrd.isLe_ofInts, IntN.fits_iff]
+    constructor
+    · rintro ⟨h1, h2⟩
+      exact ⟨Int.le_of_mul_le_mul_right h1 hUpos, Int.le_of_mul_le_mul_right h2 hUpos⟩
+    · rintro ⟨h1, h2⟩
+      exact ⟨Int.mul_le_mul_of_nonneg_right h1 (by omega), Int.mul_le_mul_of_nonneg_right h2 (by omega)⟩
+  rw [hiff]
+  by_cases hf : IntN.fits s b q = true
+  · rw [if_pos hf, if_pos hf]
+    congr 2
+    obtain ⟨h1, h2⟩ := IntN.fits_iff.1 hf
+    have hq : q.natAbs < 2 ^ 53 := by have := IntN.natAbs_le_of_fits hf; omega
+    apply toIntSat_of_toInt s b ht.1 _ h1 h2
+    rw [ht.hi_toInt, hV]
+    apply rnI_of_rep
+    show Rep (q * ((F64.unit : Nat) : Int)).natAbs
+    rw [Int.natAbs_mul, Int.natAbs_natCast, unit_eq]
+    exact rep_mul_pow2 _ (rep_of_lt hq)
+  · rw [if_neg hf, if_neg hf]
+
+/-- **`T::try_from(x)` for the small integer types**, valid finite `x` (given `TruncSpec`):
+`Ok(t)` with `t = trunc(hi + lo)` exactly when `t` lies in `T`'s range, `Err` otherwise -/
+theorem tryFromSmall_valid (T : TruncSpec) {s : Bool} {b : Nat} (hK : IntN.K s b ≤ 52) (x : TwoFloat)
+    (hx : x.Valid) (hw : x.WF) :
+    (tryFromSmall x : RResult (IntN s b)) =
+      if IntN.fits s b (Int.tdiv x.V U) = true then Except.ok ⟨Int.tdiv x.V U⟩
+      else Except.error TwoFloatError.ConversionError :=
+  rangeCheck_valid hK _ (T.valid x hx hw) _ (T.value x hx hw)
+
+/-- a non-finite high word (NaN, ±∞) is always a conversion error, for ANY low word -/
+theorem tryFromSmall_not_finite {s : Bool} {b : Nat} (hK' : IntN.K s b ≤ 128) (x : TwoFloat)
+    (h : x.hi.is_finite = false) :
+    (tryFromSmall x : RResult (IntN s b)) = Except.error TwoFloatError.ConversionError :=
+  rangeCheck_not_finite hK' _ (trunc_hi_not_finite x h)
+
+/-- **round trip** `T::try_from(TwoFloat::from(n)) == Ok(n)` for the small types — unconditional
+(does not need `TruncSpec`) -/
+theorem tryFromSmall_fromSmall {s : Bool} {b : Nat} (hK : IntN.K s b ≤ 52) (v : IntN s b)
+    (hv : v.inRange = true) : (tryFromSmall (fromSmall v.v) : RResult (IntN s b)) = Except.ok v := by
+  have hz := natAbs_lt_of_fits_small hK hv
+  have E := fromSmall_exact v.v hz
+  unfold tryFromSmall
+  rw [fromSmall_eq v.v hz, trunc_int_pzero, ← fromSmall_eq v.v hz,
+    rangeCheck_valid hK _ E.valid v.v E.V]
+  have : IntN.fits s b v.v = true := hv
+  rw [if_pos this]
+
+end Conv
+
+/-! ## §7 `TryFrom<TwoFloat> for i64 | u64 | i128 | u128` -/
+
+namespace Conv
+open F64 TwoFloat
+
+/-- `LOWER_BOUND = TwoFloat { hi: T::MIN as f64, lo: 0.0 }` -/
+def lowerB (s : Bool) (b : Nat) : TwoFloat :=
+  ({ hi := (RCast.cast (IntN.MIN : IntN s b) : F64), lo := (f64lit 0x0000000000000000) } : TwoFloat)
+
+/-- `UPPER_BOUND = TwoFloat { hi: T::MAX as f64, lo: -1.0 }` -/
+def upperB (s : Bool) (b : Nat) : TwoFloat :=
+  ({ hi := (RCast.cast (IntN.MAX : IntN s b) : F64), lo := F64.neg (f64lit 0x3ff0000000000000) } : TwoFloat)
+
+/-- range check and recombination of the wide `TryFrom` impls, applied to the truncated value -/
+def recombine {s : Bool} {b : Nat} (truncated : TwoFloat) : RResult (IntN s b) :=
+  if !((ROrd.isLe (base.impl_PartialOrd_TwoFloat_for_TwoFloat.partial_cmp (lowerB s b) truncated)) && (ROrd.isLe (base.impl_PartialOrd_TwoFloat_for_TwoFloat.partial_cmp truncated (upperB s b)))) then
+    Except.error TwoFloatError.ConversionError
+  else if (TwoFloat.hi_m truncated) ==. (TwoFloat.hi_m (upperB s b)) then
+    Except.ok (((IntN.MAX : IntN s b) -. (RCast.cast (F64.neg (TwoFloat.lo_m truncated)) : IntN s b)) +. (1 : IntN s b))
+  else if (TwoFloat.lo_m truncated) >=. (f64lit 0x0000000000000000) then
+    Except.ok ((RCast.cast (TwoFloat.hi_m truncated) : IntN s b) +. (RCast.cast (TwoFloat.lo_m truncated) : IntN s b))
+  else
+    Except.ok ((RCast.cast (TwoFloat.hi_m truncated) : IntN s b) -. (RCast.cast (F64.neg (TwoFloat.lo_m truncated)) : IntN s b))
+
+def recombinePf {s : Bool} {b : Nat} (truncated : TwoFloat) : Bool :=
+  ((base.impl_PartialOrd_TwoFloat_for_TwoFloat.partial_cmp.pf (lowerB s b) truncated) && (if ROrd.isLe (base.impl_PartialOrd_TwoFloat_for_TwoFloat.partial_cmp (lowerB s b) truncated) then base.impl_PartialOrd_TwoFloat_for_TwoFloat.partial_cmp.pf truncated (upperB s b) else true)) && (if !((ROrd.isLe (base.impl_PartialOrd_TwoFloat_for_TwoFloat.partial_cmp (lowerB s b) truncated)) && (ROrd.isLe (base.impl_PartialOrd_TwoFloat_for_TwoFloat.partial_cmp truncated (upperB s b)))) then true else if (TwoFloat.hi_m truncated) ==. (TwoFloat.hi_m (upperB s b)) then (IntN.inRange ((IntN.MAX : IntN s b) -. (RCast.cast (F64.neg (TwoFloat.lo_m truncated)) : IntN s b))) && (IntN.inRange (((IntN.MAX : IntN s b) -. (RCast.cast (F64.neg (TwoFloat.lo_m truncated)) : IntN s b)) +. (1 : IntN s b))) else if (TwoFloat.lo_m truncated) >=. (f64lit 0x0000000000000000) then IntN.inRange ((RCast.cast (TwoFloat.hi_m truncated) : IntN s b) +. (RCast.cast (TwoFloat.lo_m truncated) : IntN s b)) else IntN.inRange ((RCast.cast (TwoFloat.hi_m truncated) : IntN s b) -. (RCast.cast (F64.neg (TwoFloat.lo_m truncated)) : IntN s b)))
+
+/-- the common body of the wide `TryFrom` impls (macro `int_convert!` of convert.rs) -/
+def tryFromBig {s : Bool} {b : Nat} (value : TwoFloat) : RResult (IntN s b) :=
+  recombine (TwoFloat.trunc value)
+
+def tryFromBigPf (s : Bool) (b : Nat) (value : TwoFloat) : Bool :=
+  recombinePf (s := s) (b := b) (TwoFloat.trunc value)
+
+theorem try_from_i64_eq (x : TwoFloat) : convert.impl_TryFrom_TwoFloat_for_i64.try_from x = tryFromBig x := rfl
+theorem try_from_u64_eq (x : TwoFloat) : convert.impl_TryFrom_TwoFloat_for_u64.try_from x = tryFromBig x := rfl
+theorem try_from_i128_eq (x : TwoFloat) : convert.impl_TryFrom_TwoFloat_for_i128.try_from x = tryFromBig x := rfl
+theorem try_from_u128_eq (x : TwoFloat) : convert.impl_TryFrom_TwoFloat_for_u128.try_from x = tryFromBig x := rfl
+theorem try_from_ri64_eq (x : TwoFloat) : convert.impl_TryFrom_rTwoFloat_for_i64.try_from x = tryFromBig x := rfl
+theorem try_from_ru64_eq (x : TwoFloat) : convert.impl_TryFrom_rTwoFloat_for_u64.try_from x = tryFromBig x := rfl
+theorem try_from_ri128_eq (x : TwoFloat) : convert.impl_TryFrom_rTwoFloat_for_i128.try_from x = tryFromBig x := rfl
+theorem try_from_ru128_eq (x : TwoFloat) : convert.impl_TryFrom_rTwoFloat_for_u128.try_from x = tryFromBig x := rfl
+theorem try_from_i64_pf_eq (x : TwoFloat) : convert.impl_TryFrom_TwoFloat_for_i64.try_from.pf x = tryFromBigPf true 64 x := rfl
+theorem try_from_u64_pf_eq (x : TwoFloat) : convert.impl_TryFrom_TwoFloat_for_u64.try_from.pf x = tryFromBigPf false 64 x := rfl
+theorem try_from_i128_pf_eq (x : TwoFloat) : convert.impl_TryFrom_TwoFloat_for_i128.try_from.pf x = tryFromBigPf true 128 x := rfl
+theorem try_from_u128_pf_eq (x : TwoFloat) : convert.impl_TryFrom_TwoFloat_for_u128.try_from.pf x = tryFromBigPf false 128 x := rfl
+theorem try_from_ri64_pf_eq (x : TwoFloat) : convert.impl_TryFrom_rTwoFloat_for_i64.try_from.pf x = tryFromBigPf true 64 x := rfl
+theorem try_from_ru64_pf_eq (x : TwoFloat) : convert.impl_TryFrom_rTwoFloat_for_u64.try_from.pf x = tryFromBigPf false 64 x := rfl
+theorem try_from_ri128_pf_eq (x : TwoFloat) : convert.impl_TryFrom_rTwoFloat_for_i128.try_from.pf x = tryFromBigPf true 128 x := rfl
+theorem try_from_ru128_pf_eq (x : TwoFloat) : convert.impl_TryFrom_rTwoFloat_for_u128.try_from.pf x = tryFromBigPf false 128 x := rfl
+
+end Conv
+
+namespace F64
+
+theorem f64lit_one_unit : f64lit 0x3ff0000000000000 = fin false F64.unit := by decide +kernel
+
+theorem rge_eq (x y : F64) : (x >=. y) = ROrd.isGe (F64.partial_cmp x y) := by
+  show (match F64.partial_cmp x y with | some .Greater => true | some .Equal => true | _ => false) = _
+  rcases F64.partial_cmp x y with _ | o
+  · rfl
+  · cases o <;> rfl
+
+/-- `x >= 0.0` on a finite double -/
+theorem rge_zero_iff {x : F64} (hx : x.is_finite = true) :
+    (x >=. (f64lit 0x0000000000000000)) = true ↔ 0 ≤ x.toInt := by
+  rw [rge_eq, f64lit_zero, partial_cmp_finite hx rfl, ROrd.isGe_ofInts]; rfl
+
+/-- rounding commutes with the scaling by `U` -/
+theorem rnI_mul_unit (q : Int) : rnI (q * ((F64.unit : Nat) : Int)) = rnI q * ((F64.unit : Nat) : Int) := by
+  have hU := unit_posI
+  have e : (q * ((F64.unit : Nat) : Int)).natAbs = q.natAbs * 2 ^ 1074 := by
+    rw [Int.natAbs_mul, Int.natAbs_natCast, unit_eq]
+  by_cases hq : q < 0
+  · rw [rnI_of_neg (Int.mul_neg_of_neg_of_pos hq hU), rnI_of_neg hq, e, rn53_mul_pow2, unit_eq]
+    push_cast; ring
+  · rw [rnI_of_nonneg (Int.mul_nonneg (by omega) (by omega)), rnI_of_nonneg (by omega), e,
+      rn53_mul_pow2, unit_eq]
+    push_cast; ring
+
+end F64
+
+namespace Conv
+open F64 TwoFloat
+
+theorem rep_minV (s : Bool) (b : Nat) : Rep (IntN.minV s b).natAbs := by
+  rw [IntN.minV_eq]
+  cases s
+  · simp only [Bool.false_eq_true, if_false]; exact rep_zero
+  · simp only [if_true, Int.natAbs_neg, Int.natAbs_natCast]; exact rep_two_pow _
+
+theorem minV_natAbs_le (s : Bool) (b : Nat) : (IntN.minV s b).natAbs ≤ 2 ^ IntN.K s b := by
+  rw [IntN.minV_eq]
+  cases s
+  · simp
+  · simp
+
+/-- facts about `LOWER_BOUND` -/
+theorem lowerB_facts {s : Bool} {b : Nat} (hK' : IntN.K s b ≤ 128) :
+    (lowerB s b).Valid ∧ TwoFloat.is_valid (lowerB s b) = true ∧ (lowerB s b).WF ∧
+      (lowerB s b).V = IntN.minV s b * U := by
+  have hP128 : 2 ^ IntN.K s b ≤ 2 ^ 128 := Nat.pow_le_pow_right (by decide) hK'
+  have hle : (IntN.minV s b).natAbs ≤ 2 ^ 128 := Nat.le_trans (minV_natAbs_le s b) hP128
+  obtain ⟨h1, h2, h3⟩ := ofInt_exact _ hle (rep_minV s b)
+  have e : lowerB s b = ⟨F64.ofInt (IntN.minV s b), fin false 0⟩ := by
+    unfold lowerB; rw [f64lit_zero]; rfl
+  have hf := ofInt_finite _ hle
+  rw [e]
+  exact ⟨valid_pzero hf h3, is_valid_pzero hf, ⟨h3, rep_zero, Nat.zero_le _⟩, by rw [V_pzero, h2]⟩
+
+/-- the value of `UPPER_BOUND` is `T::MAX` -/
+theorem upperB_V {s : Bool} {b : Nat} (hK : 54 ≤ IntN.K s b) (hK' : IntN.K s b ≤ 128) :
+    (upperB s b).V = IntN.maxV s b * U ∧
+      (upperB s b).hi.toInt = ((2 ^ IntN.K s b : Nat) : Int) * U ∧ (upperB s b).hi.is_finite = true := by
+  have hm : (IntN.maxV s b).natAbs ≤ 2 ^ 128 := by
+    rw [maxV_natAbs]
+    have : 2 ^ IntN.K s b ≤ 2 ^ 128 := Nat.pow_le_pow_right (by decide) hK'
+    omega
+  have h1 : (upperB s b).hi.toInt = ((2 ^ IntN.K s b : Nat) : Int) * U := ofInt_max_toInt hK hK'
+  have h2 : (upperB s b).lo.toInt = -U := by
+    show (F64.neg (f64lit 0x3ff0000000000000)).toInt = _
+    rw [f64lit_one_unit]; rfl
+  refine ⟨?_, h1, ofInt_finite _ hm⟩
+  unfold V; rw [h1, h2, IntN.maxV_eq]; ring
+
+/-- the two range comparisons, on a valid truncated value `q` -/
+theorem range_cond {s : Bool} {b : Nat} (hK : 54 ≤ IntN.K s b) (hK' : IntN.K s b ≤ 128)
+    (hUv : TwoFloat.is_valid (upperB s b) = true) (hUV : (upperB s b).Valid)
+    (t : TwoFloat) (ht : t.Valid) (hw : t.WF) (q : Int) (hV : t.V = q * U) :
+    (ROrd.isLe (base.impl_PartialOrd_TwoFloat_for_TwoFloat.partial_cmp (lowerB s b) t) = decide (IntN.minV s b ≤ q)) ∧
+    (ROrd.isLe (base.impl_PartialOrd_TwoFloat_for_TwoFloat.partial_cmp t (upperB s b)) = decide (q ≤ IntN.maxV s b)) := by
+  have hvt : TwoFloat.is_valid t = true := (F64.NoOverlap.is_valid_iff t hw).2 ht
+  obtain ⟨hL1, hL2, -, hL4⟩ := lowerB_facts (s := s) (b := b) hK'
+  have hUpos : (0 : Int) < U := unit_posI
+  constructor
+  · rw [partial_cmp_exact_of roundFacts hL2 hvt hL1 ht, hL4, hV, Bool.eq_iff_iff, ROrd.isLe_ofInts,
+      decide_eq_true_iff]
+    exact ⟨fun h => Int.le_of_mul_le_mul_right h hUpos, fun h => Int.mul_le_mul_of_nonneg_right h (by omega)⟩
+  · rw [partial_cmp_exact_of roundFacts hvt hUv ht hUV, (upperB_V hK hK').1, hV, Bool.eq_iff_iff,
+      ROrd.isLe_ofInts, decide_eq_true_iff]
+    exact ⟨fun h => Int.le_of_mul_le_mul_right h hUpos, fun h => Int.mul_le_mul_of_nonneg_right h (by omega)⟩
+
+/-- the two words of a valid pair with integer value `q` -/
+theorem words_of_valid (t : TwoFloat) (ht : t.Valid) (q : Int) (hV : t.V = q * U) :
+    t.hi.toInt = rnI q * U ∧ t.lo.toInt = (q - rnI q) * U := by
+  have h1 : t.hi.toInt = rnI q * U := by rw [ht.hi_toInt, hV]; exact rnI_mul_unit q
+  refine ⟨h1, ?_⟩
+  have : t.lo.toInt = t.V - t.hi.toInt := by unfold V; omega
+  rw [this, hV, h1]; ring
+
+end Conv
+
+namespace Conv
+open F64 TwoFloat
+
+/-- the integer recombination of the two truncated words (the three `Ok` arms of `int_convert!`) -/
+def recomb {s : Bool} {b : Nat} (truncated : TwoFloat) : IntN s b :=
+  if (TwoFloat.hi_m truncated) ==. (TwoFloat.hi_m (upperB s b)) then
+    (((IntN.MAX : IntN s b) -. (RCast.cast (F64.neg (TwoFloat.lo_m truncated)) : IntN s b)) +. (1 : IntN s b))
+  else if (TwoFloat.lo_m truncated) >=. (f64lit 0x0000000000000000) then
+    ((RCast.cast (TwoFloat.hi_m truncated) : IntN s b) +. (RCast.cast (TwoFloat.lo_m truncated) : IntN s b))
+  else
+    ((RCast.cast (TwoFloat.hi_m truncated) : IntN s b) -. (RCast.cast (F64.neg (TwoFloat.lo_m truncated)) : IntN s b))
+
+/-- the overflow checks of the recombination -/
+def recombPf (s : Bool) (b : Nat) (truncated : TwoFloat) : Bool :=
+  if (TwoFloat.hi_m truncated) ==. (TwoFloat.hi_m (upperB s b)) then (IntN.inRange ((IntN.MAX : IntN s b) -. (RCast.cast (F64.neg (TwoFloat.lo_m truncated)) : IntN s b))) && (IntN.inRange (((IntN.MAX : IntN s b) -. (RCast.cast (F64.neg (TwoFloat.lo_m truncated)) : IntN s b)) +. (1 : IntN s b))) else if (TwoFloat.lo_m truncated) >=. (f64lit 0x0000000000000000) then IntN.inRange ((RCast.cast (TwoFloat.hi_m truncated) : IntN s b) +. (RCast.cast (TwoFloat.lo_m truncated) : IntN s b)) else IntN.inRange ((RCast.cast (TwoFloat.hi_m truncated) : IntN s b) -. (RCast.cast (F64.neg (TwoFloat.lo_m truncated)) : IntN s b))
+
+theorem recombine_eq {s : Bool} {b : Nat} (t : TwoFloat) :
+    (recombine t : RResult (IntN s b)) =
+      if (!((ROrd.isLe (base.impl_PartialOrd_TwoFloat_for_TwoFloat.partial_cmp (lowerB s b) t)) &&
+            (ROrd.isLe (base.impl_PartialOrd_TwoFloat_for_TwoFloat.partial_cmp t (upperB s b))))) = true
+      then Except.error TwoFloatError.ConversionError else Except.ok (recomb t) := by
+  unfold recombine recomb
+  split_ifs <;> rfl
+
+theorem recombinePf_eq {s : Bool} {b : Nat} (t : TwoFloat) :
+    recombinePf (s := s) (b := b) t =
+      (((base.impl_PartialOrd_TwoFloat_for_TwoFloat.partial_cmp.pf (lowerB s b) t) &&
+        (if ROrd.isLe (base.impl_PartialOrd_TwoFloat_for_TwoFloat.partial_cmp (lowerB s b) t) then
+          base.impl_PartialOrd_TwoFloat_for_TwoFloat.partial_cmp.pf t (upperB s b) else true)) &&
+       (if !((ROrd.isLe (base.impl_PartialOrd_TwoFloat_for_TwoFloat.partial_cmp (lowerB s b) t)) &&
+            (ROrd.isLe (base.impl_PartialOrd_TwoFloat_for_TwoFloat.partial_cmp t (upperB s b)))) then true
+        else recombPf s b t)) := rfl
+
+/-- the recombination is exact and overflow-free on the words of a valid pair with an in-range integer
+value `q` -/
+theorem recomb_core {s : Bool} {b : Nat} (hK : 54 ≤ IntN.K s b) (hK' : IntN.K s b ≤ 128)
+    (t : TwoFloat) (hf1 : t.hi.is_finite = true) (hf2 : t.lo.is_finite = true) (q : Int)
+    (hq : IntN.fits s b q = true) (h1 : t.hi.toInt = rnI q * U) (h2 : t.lo.toInt = (q - rnI q) * U) :
+    (recomb t : IntN s b) = ⟨q⟩ ∧ recombPf s b t = true := by
+  have R := rnFacts hq
+  obtain ⟨hq1, hq2⟩ := IntN.fits_iff.1 hq
+  have hmax := IntN.maxV_eq s b
+  have hmin := IntN.minV_eq s b
+  have hP := Nat.two_pow_pos (IntN.K s b)
+  have hUpos : (0 : Int) < U := unit_posI
+  obtain ⟨-, hU2, hU3⟩ := upperB_V hK hK'
+  have hmin0 : IntN.minV s b ≤ 0 := by
+    rw [hmin]; cases s
+    · simp
+    · simp only [if_true]; omega
+  have hnl : (F64.neg t.lo).toInt = (rnI q - q) * U := by rw [toInt_neg, h2]; ring
+  have hnf : (F64.neg t.lo).is_finite = true := by rw [is_finite_neg]; exact hf2
+  have hC : ((TwoFloat.hi_m t) ==. (TwoFloat.hi_m (upperB s b))) = decide (rnI q = ((2 ^ IntN.K s b : Nat) : Int)) := by
+    show F64.eq t.hi (upperB s b).hi = _
+    rw [Bool.eq_iff_iff, eq_iff_toInt hf1 hU3, h1, hU2, decide_eq_true_iff]
+    exact ⟨fun h => Int.eq_of_mul_eq_mul_right (by omega) h, fun h => by rw [h]⟩
+  have hD : ((TwoFloat.lo_m t) >=. (f64lit 0x0000000000000000)) = decide (rnI q ≤ q) := by
+    show (t.lo >=. (f64lit 0x0000000000000000)) = _
+    rw [Bool.eq_iff_iff, rge_zero_iff hf2, h2, decide_eq_true_iff]
+    constructor
+    · intro h
+      by_contra hc
+      have := Int.mul_neg_of_neg_of_pos (by omega : q - rnI q < 0) hUpos
+      omega
+    · intro h; exact Int.mul_nonneg (by omega) (by omega)
+  have h3 := R.abs_le
+  have h4 := R.le_pow
+  have h5 := R.nonneg
+  have h6 := R.neg
+  have h7 := R.pos
+  have h8 := R.ge_min
+  unfold recomb recombPf
+  rw [hC, hD]
+  by_cases hr : rnI q = ((2 ^ IntN.K s b : Nat) : Int)
+  · have hqpos : 0 < q := by
+      by_contra hc
+      rcases Int.lt_or_eq_of_le (by omega : q ≤ 0) with h | h
+      · have := h6 h; omega
+      · rw [h, rnI_zero] at hr; omega
+    have hcast : F64.toIntSat s b (F64.neg (TwoFloat.lo_m t)) = rnI q - q :=
+      toIntSat_of_toInt s b hnf hnl (by omega) (by omega)
+    simp only [hr, decide_true, if_true]
+    constructor
+    · show (⟨IntN.maxV s b - F64.toIntSat s b (F64.neg (TwoFloat.lo_m t)) + 1⟩ : IntN s b) = ⟨q⟩
+      rw [hcast]; congr 1; omega
+    · show (IntN.fits s b (IntN.maxV s b - F64.toIntSat s b (F64.neg (TwoFloat.lo_m t))) &&
+          IntN.fits s b (IntN.maxV s b - F64.toIntSat s b (F64.neg (TwoFloat.lo_m t)) + 1)) = true
+      rw [hcast, Bool.and_eq_true, IntN.fits_iff, IntN.fits_iff]
+      omega
+  · have hhi : F64.toIntSat s b (TwoFloat.hi_m t) = rnI q :=
+      toIntSat_of_toInt s b hf1 h1 h8 (by omega)
+    simp only [hr, decide_false, Bool.false_eq_true, if_false]
+    by_cases hge : rnI q ≤ q
+    · have hlo : F64.toIntSat s b (TwoFloat.lo_m t) = q - rnI q := by
+        apply toIntSat_of_toInt s b hf2 h2 (by omega)
+        by_cases hz : q < 0
+        · have := h6 hz; omega
+        · have := h5 (by omega); omega
+      simp only [hge, decide_true, if_true]
+      constructor
+      · show (⟨F64.toIntSat s b (TwoFloat.hi_m t) + F64.toIntSat s b (TwoFloat.lo_m t)⟩ : IntN s b) = ⟨q⟩
+        rw [hhi, hlo]; congr 1; omega
+      · show IntN.fits s b (F64.toIntSat s b (TwoFloat.hi_m t) + F64.toIntSat s b (TwoFloat.lo_m t)) = true
+        rw [hhi, hlo, IntN.fits_iff]; omega
+    · have hlo : F64.toIntSat s b (F64.neg (TwoFloat.lo_m t)) = rnI q - q := by
+        apply toIntSat_of_toInt s b hnf hnl (by omega)
+        by_cases hz : q < 0
+        · have := h6 hz; omega
+        · have := h5 (by omega); omega
+      simp only [hge, decide_false, Bool.false_eq_true, if_false]
+      constructor
+      · show (⟨F64.toIntSat s b (TwoFloat.hi_m t) - F64.toIntSat s b (F64.neg (TwoFloat.lo_m t))⟩ : IntN s b) = ⟨q⟩
+        rw [hhi, hlo]; congr 1; omega
+      · show IntN.fits s b (F64.toIntSat s b (TwoFloat.hi_m t) - F64.toIntSat s b (F64.neg (TwoFloat.lo_m t))) = true
+        rw [hhi, hlo, IntN.fits_iff]; omega
 
 end Conv
